@@ -60,6 +60,7 @@ EXPECTED_PROBES = {
     'C01': ['slice_starts_on_file_bound', 'slice_ends_on_file_bound', 'slice_spans_files',
             'negative_bound', 'part_of_length_1', 'three_or_more_parts', 'header_offset',
             'array_index_with_cols', 'cbin_cache_eviction_possible', 'numpy_scalar_index',
+            'file_order_differs_from_sorted_names',
             'cbin_index_list_not_implemented'],
     'C02': ['reflected_operator', 'cols_before_arith', 'cols_after_arith', 'depth_ge_3',
             'sibling_reread', 'integer_division'],
@@ -315,7 +316,8 @@ def gen(rng, prop, tier):
 def simplify(plan):
     cfg = plan['cfg']
     for key, simple in (('offset', 0), ('pool', 'forward' if cfg.get('pool') else None),
-                        ('cache_size', None), ('via_path', True), ('ext', '.dat')):
+                        ('cache_size', None), ('via_path', True), ('ext', '.dat'),
+                        ('naming', 'indexed')):
         if cfg.get(key) != simple and key in cfg:
             p = copy.deepcopy(plan)
             p['cfg'][key] = simple
@@ -427,6 +429,32 @@ def _eq(a, b):
     return bool(np.array_equal(a, b))
 
 
+def _eq_ulps(a, b, ulps=8):
+    """Equality for results of float arithmetic: same shape and dtype, values within a few ulps.
+    NumPy evaluates pow/divide through different SIMD / scalar-remainder paths depending on the
+    size and alignment of the block, so the last bit of one element may differ between the whole
+    array and a block of rows; integer results stay exact."""
+    a = np.asarray(a)
+    b = np.asarray(b)
+    if a.shape != b.shape or a.dtype != b.dtype:
+        return False
+    if a.dtype.kind not in 'fc':
+        return bool(np.array_equal(a, b))
+    with np.errstate(all='ignore'):
+        na, nb = np.isnan(a), np.isnan(b)
+        if not np.array_equal(na, nb):
+            return False
+        ia, ib = np.isinf(a), np.isinf(b)
+        if not np.array_equal(ia, ib) or not np.array_equal(a[ia], b[ib]):
+            return False
+        fin = ~(na | ia)
+        eps = np.finfo(a.dtype).eps
+        d = np.abs(a[fin].astype(np.float64) - b[fin].astype(np.float64))
+        tol = ulps * eps * np.maximum(np.abs(a[fin]), np.abs(b[fin])).astype(np.float64) \
+            + np.finfo(a.dtype).tiny
+        return bool(np.all(d <= tol))
+
+
 def _describe(a):
     a = np.asarray(a)
     return {'shape': list(a.shape), 'dtype': str(a.dtype),
@@ -514,6 +542,8 @@ def _execute(plan, ctx, cfg, prop):
         ctx.probe('three_or_more_parts')
     if cfg['offset']:
         ctx.probe('header_offset')
+    if len(cfg['parts']) > 1 and cfg.get('naming', 'indexed') != 'indexed':
+        ctx.probe('file_order_differs_from_sorted_names')
 
     if prop == 'C01':
         # attributes
@@ -557,7 +587,8 @@ def _execute(plan, ctx, cfg, prop):
                 return
             raise
         ctx.ev(step, 'read', h, np.asarray(got))
-        ctx.check(isinstance(got, np.ndarray) and _eq(got, expected), clause,
+        same = _eq(got, expected) if depth[h] == 0 else _eq_ulps(got, expected)
+        ctx.check(isinstance(got, np.ndarray) and same, clause,
                   lambda: {'step': step, 'item': item, 'cols': cols, 'got': _describe(got),
                            'expected': _describe(expected), 'parts': cfg['parts']})
         ctx.state(cfg['backend'], len(cfg['parts']), cfg['dtype'], min(len(bounds), 6), item['k'],
